@@ -4,6 +4,8 @@ import (
 	"fmt"
 	"sort"
 
+	"vx/smt"
+
 	vexec "vx/exec"
 )
 
@@ -109,7 +111,7 @@ func buildEvidence(prop, tier string, seed int, c *CheckCfg, tc TierCfg, results
 	cov["stubs_and_intrinsics"] = sl
 	cov["bounds"] = map[string]interface{}{"params": tc.Params, "maxSteps": tc.MaxSteps, "maxIter(unwinding)": def(tc.MaxIter, 5000), "harnesses": tc.Harnesses}
 	cov["queries"] = queries
-	cov["solver"] = solver
+	cov["solver"] = solver + " (libz3 " + smt.Z3LibVersion() + " in-process)"
 	cov["solver_s"] = round2(solverS)
 	cov["load_ssa_s"] = round2(loadS)
 	cov["paths"] = paths
